@@ -337,6 +337,7 @@ class World:
         if len(seen) != 1 or seen[0][0] != k:
             raise Violation("C10|endpoint-not-invoked-once", "invocation %d: endpoint calls %r" % (iid, brief(seen)), self.c)
         _, a, kw, det = seen[0]
+        inv["det"] = det
         if norm(list(a)) != norm(list(args)) or norm(kw) != norm(kwargs):
             raise Violation("C10|endpoint-arguments-differ", "endpoint saw args=%r kwargs=%r; caller sent %r %r" % (brief(a), brief(kw), brief(args), brief(kwargs)), self.c)
         wants = details or beh == "progress"
@@ -369,16 +370,22 @@ class World:
         else:
             inv["state"] = "done"
             self.expect_terminal(inv)
-            if beh == "progress" and wants and det is not None and det.progress is not None and (len(args) + iid) % 2 == 0:
-                # an endpoint that kept details.progress and calls it once more after it has returned (a stray timer, a late worker thread):
-                # whatever the session does with that call, no progressive result may follow the terminal reply on the wire
-                try:
-                    self.tx.d.call(lambda: det.progress("late", j=-1))
-                except Exception:
-                    pass        # refusing the late call with an exception is fine
-                self.tx.d.settle()
-                self.collect()
-                self.late_progress_calls = getattr(self, "late_progress_calls", 0) + 1
+            self.late_progress(inv)
+
+    def late_progress(self, inv):
+        """an endpoint that kept details.progress and calls it once more after the invocation has been answered - whatever the answer was (a value, an
+        error, the fallback ERROR for a result that could not be sent) - e.g. from a stray timer or a worker thread: whatever the session does
+        with that call, no progressive result may follow the terminal reply on the wire"""
+        det = inv.get("det")
+        if det is None or getattr(det, "progress", None) is None or (len(inv["args"]) + inv["id"]) % 2:
+            return
+        try:
+            self.tx.d.call(lambda: det.progress("late", j=-1))
+        except Exception:
+            pass        # refusing the late call with an exception is fine
+        self.tx.d.settle()
+        self.collect()
+        self.late_progress_calls = getattr(self, "late_progress_calls", 0) + 1
 
     def expect_terminal(self, inv, how=None):
         beh = how or inv["beh"]
@@ -469,6 +476,7 @@ class World:
         self.collect()
         inv["state"] = "done"
         self.expect_terminal(inv, how)
+        self.late_progress(inv)
 
     def do_interrupt(self, k, which):
         if which == "unknown":
